@@ -201,7 +201,7 @@ func handler(dev *simdev.Device, modeOf func(tid uint16) string) server.ModbusHa
 			// the error its client got there: an error that wraps the downstream exception
 			return nil, &modbus.ClientError{Err: &packet.ErrorResponseTCP{TransactionID: tid ^ 0x0f0f, UnitID: b[6] ^ 0x21, Function: b[7] ^ 0x01, Code: packet.ErrIllegalDataAddress}}
 		case "slow":
-			time.Sleep(90 * time.Millisecond) // longer than the server's default write timeout: the reply is still owed
+			time.Sleep(400 * time.Millisecond) // longer than the server's write timeout (300 ms here): the reply is still owed
 		case "panic-string":
 			panic("verif: handler panics with a string")
 		case "panic-error":
@@ -431,7 +431,7 @@ func runSeq(c *Case, r *mon.Rec, rng *rand.Rand) {
 	dev := simdev.New(uint64(c.Seed), "srv")
 	modes := map[uint16]string{}
 	l := srvx.NewMemListener()
-	s := &server.Server{OnErrorFunc: func(error) {}}
+	s := &server.Server{OnErrorFunc: func(error) {}, WriteTimeout: 300 * time.Millisecond} // wide enough not to be scheduling noise; the "slow" handler mode exceeds it
 	if c.Seed%2 == 0 {
 		s.OnErrorFunc = nil // default configuration: the server logs connection errors itself
 	}
